@@ -670,6 +670,8 @@ class Intro:
         (["{n} = not {t:bool} and ({t:int} != {t:int} or {t:str} == {t:str}) and {t:int} not in {t:list_int}"], {"{n}": "bool"}),
         (["assert {t:bool}", "assert {t:int} == {t:int}, 'message'"], {}),
         (["try:", "    {n} = int({t:str})", "except ValueError:", "    {n} = 0", "print({n})"], {}),
+        (["{n} = [{v:str}, {v:int}]", "{n2} = {n} + {n}", "{n} += [{v:str}]", "print({n}, {n2})"], {}),
+        (["{n} = [input(), len({t:str}), {t:float} / 2]", "{n2} = {n} * 2 + {n}[1:]", "print({n2})"], {}),
         (["{n} = (1, 2) + (3,)", "print({n})"], {}),
         (["{n} = ()", "print(len({n}))"], {}),
         (["{n} = (1, 2)", "{n2} = {n} + {n}", "print({n2} + {n})"], {}),
